@@ -121,7 +121,15 @@ func init() {
 				}
 			}()
 			for r := 0; r < rounds; r++ {
-				if rng.Intn(5) != 0 {
+				if r > 0 && rng.Intn(5) == 0 {
+					// the experiment controller lowers spec.requests (early-stopped Trials without observation are subtracted,
+					// a Trial was deleted): nothing is requested, and nothing that is stored may go away
+					req -= int32(1 + rng.Intn(2))
+					if req < 0 {
+						req = 0
+					}
+					tags = append(tags, "requests-lowered")
+				} else if rng.Intn(5) != 0 {
 					req += int32(1 + rng.Intn(3))
 					if rng.Intn(6) == 0 {
 						req += int32(3 + rng.Intn(6)) // a large step (parallelTrialCount raised a lot)
